@@ -468,6 +468,11 @@ def build_middlewares(sc: Scenario) -> List[TaskiqMiddleware]:
         attrs: Dict[str, Any] = {}
         for hook, hs in mws.items():
             attrs[hook] = _make_hook(sc, i, hook, hs)
+        if sc.spec.get("mw_eq"):
+            # middlewares that compare by value (dataclass-style): two of them configured alike are equal objects,
+            # and still two registered middlewares
+            attrs["__eq__"] = lambda self, other: isinstance(other, TaskiqMiddleware)
+            attrs["__hash__"] = lambda self: 1
         inherit = any(isinstance(hs, dict) and hs.get("inherit") for hs in mws.values())
         if inherit:
             # hooks defined on a library base class, the registered middleware is a subclass of it
